@@ -1,7 +1,6 @@
 SPECIFICATION Spec
-CONSTANTS MaxTok = 5 MaxDepth = 3
-  Leaves <- LeavesTiny
-  RootKinds <- SeqRoots
+CONSTANTS MaxDepth = 3
+  Families <- FamT_F
   StoreByCopy = TRUE
   TailKeepsSets = TRUE
 INVARIANT Emitted
